@@ -390,6 +390,8 @@ func certStep(r *Run, fn *ssa.Function, pairs []laxPair) (map[string]string, *la
 	d["lax retry reads the bytes of the strict parse"] = fmt.Sprint(sameValue(r, sa[0], la[0]))
 	d["lax retry fills the object of the strict parse"] = fmt.Sprint(sameValue(r, sa[1], la[1]))
 	d["destination type"] = argType(sa[1])
+	// the structure decoded into: zero-valued when the strict parse starts (rules_t8c11.go)
+	c11StepCell(r, fn, pair, pc, d)
 	// error merge after parseCertificate
 	perr := errValueOf(pc)
 	if perr == nil {
@@ -412,18 +414,9 @@ func certStep(r *Run, fn *ssa.Function, pairs []laxPair) (map[string]string, *la
 		return d, pair, pc
 	}
 	nk, ok := r.D.Classify(nt).Key, r.D.D(okv)
-	// fatal ⇒ (nil, that error)
-	reach := r.D.Walk(fn, Sigma{nk: "non", ok: "F"}, pc.Block(), nil)
-	var fs []string
-	for _, ret := range reachableReturns(fn, reach) {
-		e := "other"
-		if ret.Results[1] == perr {
-			e = "parseCertificate's error"
-		}
-		fs = append(fs, "("+r.D.D(ret.Results[0])+", "+e+")")
-	}
-	sort.Strings(fs)
-	d["fatal parseCertificate error ⇒ returns"] = strings.Join(uniq(fs), " ")
+	// fatal ⇒ (nil, that error): at once, or — when the loop goes on splitting the rest of the
+	// input — under a loop-carried mark that stays set (rules_t8c11.go)
+	d["fatal parseCertificate error ⇒ returns"] = c11FatalReturns(r, fn, pair, pc, perr, Sigma{nk: "non", ok: "F"})
 	// non-fatal ⇒ merged into the collector on every path
 	var merges []*ssa.Store
 	for _, st := range r.StoresTo(fn, "&(new:x509.NonFatalErrors#*.Errors)") {
@@ -437,8 +430,9 @@ func certStep(r *Run, fn *ssa.Function, pairs []laxPair) (map[string]string, *la
 	for _, m := range merges {
 		stop[m.Block()] = true
 	}
-	reach = r.D.Walk(fn, Sigma{nk: "non", ok: "T"}, pc.Block(), stop)
+	reach := r.D.Walk(fn, Sigma{nk: "non", ok: "T"}, pc.Block(), stop)
 	d["non-fatal parseCertificate errors merged before any return"] = fmt.Sprint(len(merges) > 0 && len(reachableReturns(fn, reach)) == 0)
+	d["non-fatal parseCertificate errors reach the reported collector"] = c11NonFatalReported(r, fn, perr)
 	r.Valuations += 2
 	// final gate
 	for _, hv := range []string{"T", "F"} {
@@ -682,14 +676,16 @@ func c11Siblings(r *Run, pairs []laxPair) {
 	d1, p1, pc1 := certStep(r, one, pairs)
 	dn, pn, pcn := certStep(r, many, pairs)
 	want := map[string]string{
-		"strict→lax pairs":                                           "1",
-		"parseCertificate calls":                                     "1",
-		"lax retry reads the bytes of the strict parse":              "true",
-		"lax retry fills the object of the strict parse":             "true",
-		"fatal parseCertificate error ⇒ returns":                     "(nil, parseCertificate's error)",
-		"non-fatal parseCertificate errors merged before any return": "true",
-		"HasError=T ⇒ returns":                                       "(object, the collector)",
-		"HasError=F ⇒ returns":                                       "(object, nil)",
+		"strict→lax pairs":                                               "1",
+		"parseCertificate calls":                                         "1",
+		"lax retry reads the bytes of the strict parse":                  "true",
+		"lax retry fills the object of the strict parse":                 "true",
+		"strict parse fills a zero-valued structure":                     "true",
+		"fatal parseCertificate error ⇒ returns":                         "(nil, parseCertificate's error)",
+		"non-fatal parseCertificate errors merged before any return":     "true",
+		"non-fatal parseCertificate errors reach the reported collector": "true",
+		"HasError=T ⇒ returns":                                           "(object, the collector)",
+		"HasError=F ⇒ returns":                                           "(object, nil)",
 	}
 	keys := map[string]bool{}
 	for k := range d1 {
@@ -725,8 +721,20 @@ func c11Siblings(r *Run, pairs []laxPair) {
 			list = ia.X
 		}
 	}
-	if list == nil {
-		r.Fail("ParseCertificates:parses-decoded-structures", r.Where(pcn), "undecided: parseCertificate's argument "+r.D.D(arg)+" is not an element of a list")
+	if cell, isCell := arg.(*ssa.Alloc); list == nil && isCell {
+		// one pass: the structure is converted in the round that decoded it
+		flow := c11CellFlow(many, cell, pn.strict, pn.lax)
+		st := flow[pcn]
+		r.Check("ParseCertificates:parses-decoded-structures", sameValue(r, arg, dest) && c11Only(st, c11Dec), r.Where(pcn),
+			fmt.Sprintf("parseCertificate runs on %s; the strict parse fills %s; when parseCertificate runs the structure holds: %s", r.D.D(arg), r.D.D(dest), c11KindsString(st)))
+		why := c11OneCertPerRound(r, many, pn.strict, pcn)
+		detail := "every round decodes one certificate and either appends parseCertificate's result to the loop-carried result list (empty on entry) or leaves a loop-carried mark set for good under which only (nil, error) is returned; every list handed back is that result after the last round"
+		if why != "" {
+			detail = why
+		}
+		r.Check("ParseCertificates:result-i-is-certificate-i", why == "", r.Where(pcn), detail)
+	} else if list == nil {
+		r.Fail("ParseCertificates:parses-decoded-structures", r.Where(pcn), "undecided: parseCertificate's argument "+r.D.D(arg)+" is neither an element of a list nor the structure of this round")
 	} else {
 		elems, okl := appendedElems(list, map[ssa.Value]bool{})
 		ok := okl && len(elems) > 0
